@@ -353,7 +353,7 @@ PROPS = {
             "Xet.Dedup.C14_session_sum", "Xet.Dedup.C14_session_sum_totals", "Xet.Dedup.C14_session_conserved", "Xet.Dedup.localQuery_legal",
             "Xet.Dedup.processLoop_inv", "Xet.Dedup.answersLegal_iff", "Xet.Dedup.lensFunctional_or_collision",
         ],
-        "suites": ["deduper", "session"],
+        "suites": ["deduper", "session", "session_conc"],
         "level_text": "Theorems for every hash-primitive record, limits, EVERY defrag decision procedure, every partition of a file's chunk list into "
                       "process_chunks calls and every oracle with legal answers: total bytes/chunks = what was fed, new + deduplicated = total, "
                       "withheld <= new, pointer size = total bytes = file_size of the record (preserved by merge_in / finalize); session metrics = sum "
@@ -377,7 +377,7 @@ PROPS = {
             "Xet.Dedup.C15_merge_preserves", "Xet.Dedup.C15_no_unresolved", "Xet.Dedup.C15_aggregate_xorbs", "Xet.Dedup.C15_production_constants",
             "Xet.Dedup.C15_field_widths", "Xet.Dedup.C15_cas_entries_fit",
         ],
-        "suites": ["deduper", "session"],
+        "suites": ["deduper", "session", "session_conc"],
         "level_text": "Same quantifiers as C14 plus maxXorbChunks >= 1 and every chunk 1..maxChunk <= maxXorbBytes bytes: every xorb cut mid-file and every "
                       "xorb the session aggregator hands to the store is non-empty, within both limits, made of chunks within the chunk bound; new_data "
                       "and current_session_data are within limits at every call boundary; zero-hash segments are exactly the listed ones (kept by "
@@ -394,7 +394,7 @@ PROPS = {
             "Xet.Dedup.C03_pointer_hash", "Xet.Dedup.C03_pointer_function", "Xet.Dedup.C03_independent", "Xet.Dedup.C03_bytes_function",
             "Xet.Dedup.C03_same_bytes_same_pointer", "Xet.Dedup.C03_salt", "Xet.Dedup.C03_salt_file", "Xet.Dedup.C03_salt_empty_file",
         ],
-        "suites": ["session", "deduper", "hashes"],
+        "suites": ["session", "deduper", "hashes", "session_conc"],
         "level_text": "The pointer hash is file_node_hash(chunk (hash,len) list, salt) for ANY oracle answers; the pointer size is the number of bytes for "
                       "every legal history; composed with C04: both are functions of the bytes and the salt only, for every partition of the bytes into "
                       "add_data calls, every grouping into process_chunks calls, every oracle, limits and defrag procedure; different salts => collision "
@@ -417,7 +417,7 @@ PROPS = {
                      "Xet.Dedup.C01_finalize", "Xet.Dedup.C01_merge_in", "Xet.Dedup.C01_agg_finalize",
                      "Xet.Dedup.C01_roundtrip", "Xet.Dedup.C01_range", "Xet.Dedup.C01_range_is_slice",
                      "Xet.Dedup.rangeBytes_eq", "Xet.Dedup.truthful_hash_to_data"],
-        "suites": ["session", "deduper"],
+        "suites": ["session", "deduper", "session_conc"],
         "level_text": "Invariant proved for every hash primitives, limits (incl. 0/1), EVERY defrag decision procedure, every store and every "
                       "data-truthful oracle, over every history of interleaved files and completions followed by finish: each file's segments resolve "
                       "(in the store plus the xorbs this session cut) to exactly the chunks fed; preserved by continue-merge, new segment, local "
@@ -431,11 +431,14 @@ PROPS = {
                       "number of bytes written; the server's response shape is the one recorded assumption and is shown satisfiable. Tied to the Rust by real "
                       "sessions on a local store (several sessions per store, five [eleven] limit configurations): every file downloaded whole and by "
                       "range after each session, and the model replays each session (chunker + dedup + aggregation) and reproduces pointers, puts, "
-                      "records and metrics exactly. Partial: concurrency beyond interleaved add_data calls and the HTTP path are not modelled here "
-                      "(the reconstruction arithmetic is C17).",
+                      "records and metrics exactly. Concurrency: the model's histories are arbitrary interleavings of the files' calls (theorems), and "
+                      "suite session_conc cleans 2-12 files of a session concurrently on the multi-thread runtime (spawned tasks / worker pools, "
+                      "rendezvous before finish, bursts, jitter inside xet-core at the cfg hook points) and checks pointers against the model "
+                      "and a sequential reference store, downloads, structure, metrics and a re-upload echo session. Partial: real thread "
+                      "interleavings are sampled, not enumerated; the HTTP path is not modelled here (the reconstruction arithmetic is C17).",
         "design_ref": "DESIGN.md section 4, C01..C11; Appendix A.2",
         "technique": "Lean 4 proof (resolve invariant over all histories) + differential correspondence on real sessions",
-        "rule": "session: 5 [11] limit configurations x 2 [12] stores x 2-4 sessions x 1-5 files built from fresh bytes, stretches of earlier files "
+        "rule": "session_conc: 24 [150] worlds x 5 [10] limit configurations of 2-4 sessions with 2-12 files built for cross-file duplication (identical files, shared prefix/suffix/middle, concatenations, empty and sub-chunk files, splices of earlier sessions), random add_data partitions and pauses, all files cleaned concurrently (task per file or 2-8 workers; rendezvous before finish; bursts), then a sequential echo session; session: 5 [11] limit configurations x 2 [12] stores x 2-4 sessions x 1-5 files built from fresh bytes, stretches of earlier files "
                 "and repeated blocks (cross-file, cross-session and self dedup), empty / sub-chunk / multi-xorb sizes, random add_data partitions, "
                 "sequential or interleaved cleaners, re-uploads; every file of the store downloaded whole + 3 ranges after each session; "
                 "distinct by hash of the session op; non-trivial = non-empty session",
@@ -449,7 +452,7 @@ PROPS = {
     "C02": {
         "modules": ["XetProps.C02"],
         "theorems": ["Xet.Dedup.C02_names", "Xet.Dedup.C02_casinfo", "Xet.Dedup.C02_consistent", "Xet.Dedup.C02_no_zero_segment"],
-        "suites": ["session"],
+        "suites": ["session", "session_conc"],
         "level_text": "For every history (same quantifiers as C01): every xorb put is named cas_node_hash of its chunks and its CAS info entries are the "
                       "running sums; every emitted file record has in-range segments in the final store whose byte counts are the sums of the referenced "
                       "chunk lengths, file hash = file_node_hash(all chunks, salt), verification[i] = range hash of the hashes segment i covers, "
@@ -466,7 +469,7 @@ PROPS = {
         "theorems": ["Xet.Dedup.C11_recorded", "Xet.Dedup.C11_recorded_always", "Xet.Dedup.C11_chunks_recorded",
                      "Xet.Shard.C11_lookup_complete", "Xet.Shard.C11_lookup_complete_register", "Xet.Shard.C11_flush_finds",
                      "Xet.Shard.C11_flush_mem_empty"],
-        "suites": ["session", "manager"],
+        "suites": ["session", "manager", "session_conc"],
         "level_text": "For every history, legal or not: every xorb handed to the store (cut mid-file or from the session aggregator, incl. the final "
                       "one) has its CAS info registered with the session shard, and every chunk of it is in that info. Lookup completeness of ShardFileManager "
                       "is proved: a chunk at offset <= u16::MAX of a block of a serialized well-formed shard registered under a new name below the "
